@@ -160,10 +160,10 @@ def run(facts, tr, rep):
                 neg = not neg
                 node = peel(node[2])
             if node[0] == "call":
-                cc = tr.call_of(node)
-                if cc.name == "should_retry":
+                ep = effective_predicate(tr, facts, node, ("should_retry", "try_withdraw"))
+                if ep and ep[0] == "should_retry":
                     pred_edges.add((bb, sw.variants["false" if neg else "true"]))
-                if cc.name == "try_withdraw":
+                if ep and ep[0] == "try_withdraw":
                     budget_true.add((bb, sw.variants["false" if neg else "true"]))
                     budget_false.add((bb, sw.variants["true" if neg else "false"]))
         elif sw.kind == "enum" and "None" in sw.variants:
